@@ -142,6 +142,8 @@ type PhaseSpec struct {
 	Objects []*unstructured.Unstructured
 	CP      corev1alpha1.CollisionProtection
 	Slices  []string
+	// Mapped: every Widget of the phase maps its Available condition into the owner's status (type verif.example/<name>)
+	Mapped bool
 }
 
 func toPhases(phases []PhaseSpec) []corev1alpha1.ObjectSetTemplatePhase {
@@ -149,7 +151,11 @@ func toPhases(phases []PhaseSpec) []corev1alpha1.ObjectSetTemplatePhase {
 	for _, ph := range phases {
 		p := corev1alpha1.ObjectSetTemplatePhase{Name: ph.Name, Class: ph.Class, Slices: ph.Slices}
 		for _, o := range ph.Objects {
-			p.Objects = append(p.Objects, corev1alpha1.ObjectSetObject{Object: *o.DeepCopy(), CollisionProtection: ph.CP})
+			oo := corev1alpha1.ObjectSetObject{Object: *o.DeepCopy(), CollisionProtection: ph.CP}
+			if ph.Mapped && o.GetKind() == "Widget" {
+				oo.ConditionMappings = []corev1alpha1.ConditionMapping{{SourceType: "Available", DestinationType: "verif.example/" + o.GetName()}}
+			}
+			p.Objects = append(p.Objects, oo)
 		}
 		out = append(out, p)
 	}
